@@ -175,6 +175,8 @@ class CSSVariablesRule(cssrule.CSSRule):
             # (read by the parser of the containing sheet or rule)
             self._accepted = ok
             if ok:
+                # literal keyword (preference defaultAtKeyword)
+                self._keyword = self._tokenvalue(attoken)
                 # contains probably comments only upto {
                 self._setSeq(newseq)
                 self.variables = newVariables
